@@ -516,9 +516,9 @@ type Workload struct {
 	// results may contain arbitrary bytes (an error that quotes an invalid abbreviation), which encoding/json would
 	// replace by U+FFFD on the way to the child
 	Expected [][]gen.BStr `json:"expected_in_parent,omitempty"`
-	Procs    int        `json:"gomaxprocs"`
-	Rounds   int        `json:"rounds"`
-	G        [][]WOp    `json:"goroutines"`
+	Procs    int          `json:"gomaxprocs"`
+	Rounds   int          `json:"rounds"`
+	G        [][]WOp      `json:"goroutines"`
 }
 
 func (w Workload) expected(shared []adapt.Obj) [][]string {
@@ -704,6 +704,7 @@ func TestC14Cold(t *testing.T) {
 }
 
 var coldSeq, coldInconclusive int
+var hotPairSeq [4]int
 
 // checkCold runs the workload in fresh child processes (this very test binary).
 func checkCold(w Workload) error {
@@ -794,6 +795,7 @@ func runHot(c HotCase) error {
 		none bool
 	}
 	var calls []func() exp
+	var big []bool
 	switch c.Kind {
 	case "rating":
 		if p.Rating == nil {
@@ -807,6 +809,7 @@ func runHot(c HotCase) error {
 		for _, bs := range c.Strs {
 			str := string(bs)
 			calls = append(calls, func() exp { o, err := p.Parse(str); return exp{o: o, err: err, none: o == nil} })
+			big = append(big, len(str) > 60000)
 		}
 	case "vector", "scores", "get":
 		for _, bs := range c.Strs {
@@ -827,6 +830,9 @@ func runHot(c HotCase) error {
 	}
 	if len(calls) == 0 {
 		return nil
+	}
+	for len(big) < len(calls) {
+		big = append(big, false)
 	}
 	same := func(a, b exp) bool {
 		if a.s != b.s || a.none != b.none || (a.err == nil) != (b.err == nil) || len(a.f) != len(b.f) {
@@ -871,6 +877,9 @@ func runHot(c HotCase) error {
 			<-start
 			for i := 0; i < c.Iters && atomic.LoadInt32(&stop) == 0; i++ {
 				k := (i + g) % len(calls)
+				if big[k] && i%32 != 0 {
+					k = 0 // the over-long input takes its turn only now and then (it is a hundred times as expensive)
+				}
 				if got := calls[k](); !same(want[k], got) {
 					errs[g] = fmt.Errorf("%s (v%s), argument %d, called concurrently by %d goroutines (GOMAXPROCS=%d): got (%q, %v, %v), the sequential result is (%q, %v, %v)", c.Kind, p.V.Name, k, c.G, procs, got.s, got.err, got.f, want[k].s, want[k].err, want[k].f)
 					atomic.StoreInt32(&stop, 1)
@@ -919,6 +928,9 @@ func drawHot(rt *rapid.T, kind string, ver int, procs int, itersScale int) HotCa
 				c.Strs = append(c.Strs, gen.BStr(gen.ValidVector(rt, c.Ver).S))
 			}
 		}
+		// one input of more than 64 KiB (a rejected one: the valid vector followed by junk): code that treats
+		// "too large to keep" inputs specially runs next to ordinary parses
+		c.Strs = append(c.Strs, gen.BStr(gen.ValidVector(rt, c.Ver).S+"/ZZ:"+strings.Repeat("N", 66000)))
 		c.Iters = 25000 * itersScale
 		if c.G > 100 {
 			c.Iters = 10000 * itersScale
@@ -1418,11 +1430,12 @@ func TestC14(t *testing.T) {
 	}
 	for _, hc := range hcombos {
 		hc := hc
-		if plain && (hc.kind != "parse" || env.Phase != "plain") {
-			// the plain side process keeps the parser crowds (result comparison only): a file that is compiled
-			// only when the race detector is off is not in the main process at all
+		if plain && env.Phase != "plain" {
 			continue
 		}
+		// the plain side process runs the hot loops too (result comparison only, 8 times as many calls: without the
+		// race instrumentation calls are short enough to overlap often): a file that is compiled only when the race
+		// detector is off is not in the main process at all, and a window of a few nanoseconds is rarely hit under -race
 		for _, procs := range []int{2, 16} {
 			procs := procs
 			if h.replaying() && (procs != 2 || hc != hcombos[0]) {
@@ -1485,6 +1498,102 @@ func TestC14(t *testing.T) {
 					return c
 				}, check)
 			}
+		}
+	}
+	// error values shared between goroutines (race build)
+	if !plain && !h.replaying() {
+		ok := h.t.Run("sharederr", func(st *testing.T) {
+			if err := sharedErrors(); err != nil {
+				st.Errorf("%v", err)
+			}
+		})
+		if !ok {
+			h.fail("shared-error", map[string]string{"what": "one error value of every kind read by 8 goroutines at the same time"}, fmt.Errorf("an error value read by several goroutines at the same time gives different texts or is reported as a data race (see the log)"))
+		}
+		h.R.Count("error values read concurrently by 8 goroutines", 16)
+	}
+	// (n) score streams: many different objects in flight
+	for ver := 0; ver < 4; ver++ {
+		ver := ver
+		if h.replaying() && ver != 0 {
+			continue
+		}
+		if env.Phase == "g126" {
+			break
+		}
+		check := func(c ScoreStream) error {
+			var err error
+			seq++
+			ok := h.t.Run(fmt.Sprintf("stream%d", seq), func(st *testing.T) { err = runScoreStream(c) })
+			if err != nil {
+				return err
+			}
+			if !ok {
+				return fmt.Errorf("the race detector reported a data race while %d goroutines scored a pool of v%s objects", c.G, spec.Versions[c.Ver%4].Name)
+			}
+			return nil
+		}
+		Rapid(h, "score-stream", 1, func(rt *rapid.T) ScoreStream {
+			c := ScoreStream{Ver: ver, N: env.Scale(6000, 30000), G: 8, Rounds: 1, From: rapid.IntRange(0, 3000).Draw(rt, "from")}
+			if plain {
+				c.N, c.G, c.Rounds = 30000, 16, env.Scale(3, 8)
+			}
+			h.R.Case(fmt.Sprintf("score stream v%s", spec.Versions[ver].Name), fmt.Sprintf("SS%v", c))
+			h.R.Count("scoring calls on a large pool of different objects by concurrent goroutines", int64(c.N*c.G*c.Rounds))
+			return c
+		}, check)
+	}
+	// (p) hot pairs: two objects, one method, tight loops (plain side process)
+	if env.Phase == "plain" || h.replaying() {
+		for ver := 0; ver < 4; ver++ {
+			ver := ver
+			if h.replaying() && ver != 0 {
+				continue
+			}
+			Rapid(h, "hot-pair", env.Scale(2, 8), func(rt *rapid.T) HotPair {
+				c := HotPair{Ver: ver, Iters: []int{2000000, 2000000, 2000000, 600000}[ver]}
+				// the first case: the lowest and the highest representative; later ones generated
+				reps := gen.Representatives()
+				var mine []gen.Valid
+				for _, r := range reps {
+					if r.Ver == ver {
+						mine = append(mine, r)
+					}
+				}
+				if hotPairSeq[ver] == 0 {
+					c.VecA, c.VecB = gen.BStr(mine[1].S), gen.BStr(mine[2].S)
+				} else {
+					c.VecA, c.VecB = gen.BStr(gen.ValidVector(rt, ver).S), gen.BStr(gen.ValidVector(rt, ver).S)
+				}
+				hotPairSeq[ver]++
+				h.R.Case(fmt.Sprintf("hot pair v%s", spec.Versions[ver].Name), fmt.Sprintf("HP%v", c))
+				h.R.Count("scoring calls in hot pairs", int64(c.Iters)*int64(2*runtime.GOMAXPROCS(0)))
+				return c
+			}, runHotPair)
+		}
+	}
+	// (o) one call repeated 2^24 + 16 times (plain side process: no race instrumentation, so it takes seconds)
+	if env.Phase == "plain" || h.replaying() {
+		var rcs []RepeatCase
+		reps := gen.Representatives()
+		for i, r := range reps {
+			if i == len(reps)-1 || reps[i+1].Ver != r.Ver {
+				rcs = append(rcs, RepeatCase{Ver: r.Ver, Kind: "scores", Vec: gen.BStr(r.S), Total: 1<<24 + 16})
+				if env.Tier == "thorough" {
+					rcs = append(rcs, RepeatCase{Ver: r.Ver, Kind: "get", Vec: gen.BStr(r.S), Total: 1<<24 + 16}, RepeatCase{Ver: r.Ver, Kind: "rating", Vec: gen.BStr(r.S), Total: 1<<24 + 16},
+						RepeatCase{Ver: r.Ver, Kind: "parse-empty", Vec: gen.BStr(r.S), Total: 1<<31 + 64}, RepeatCase{Ver: r.Ver, Kind: "parse-empty", Vec: gen.BStr(r.S), Total: 1 << 31}) // together 2^32 + 64
+				}
+			}
+		}
+		if !doReplay(h, "repeat", runRepeat) {
+			for _, c := range rcs {
+				h.R.Pending("repeat", c)
+				if err := safely(runRepeat, c); err != nil {
+					h.fail("repeat", c, err)
+				}
+			}
+			h.R.AddExact(int64(len(rcs)), int64(len(rcs)))
+			h.R.Count("cases of one call repeated 2^24+16 times (thorough: also ParseVector(\"\") 2^31 and 2^32 times)", int64(len(rcs)))
 		}
 	}
 	// (m) neighbours: objects stored by value side by side, each worked on by its own goroutine
@@ -1692,6 +1801,28 @@ func TestC14(t *testing.T) {
 			}
 			return w
 		}, checkCold)
+	}
+	// cold starts whose very first Score() is for a given MacroVector: a rotating 12 of the 270 per quick run
+	if !plain && !h.replaying() {
+		fv := firstScoreVectors()
+		nfv := env.Scale(12, 270)
+		for k := 0; k < nfv && len(fv) > 0; k++ {
+			vec := fv[(int(env.Seed%997)*nfv+k*11)%len(fv)]
+			if k == 0 {
+				vec = fv[0] // the MacroVector that packs to an all-zero key
+			} else if k == 1 {
+				vec = fv[len(fv)-1]
+			}
+			w := Workload{Procs: 4, Rounds: 1}
+			for g := 0; g < 4; g++ {
+				w.G = append(w.G, []WOp{{Kind: "parse", Ver: 3, S: gen.BStr(vec)}, {Kind: "scores", Ver: 3}})
+			}
+			h.R.Pending("cold-start", w)
+			if err := safely(checkCold, w); err != nil {
+				h.fail("cold-start", w, err)
+			}
+		}
+		h.R.Count("fresh child processes whose first Score() is for a chosen MacroVector", int64(nfv))
 	}
 	if coldInconclusive > 0 && !h.replaying() {
 		h.R.Count("cold-start children that could not run to a verdict (ignored)", int64(coldInconclusive))
